@@ -60,6 +60,14 @@ Fixpoint find_inst (n : nat) (l : list (nat * nat)) : option nat :=
   match l with [] => None | (m, a) :: r => if Nat.eqb m n then Some a else find_inst n r end.
 Fixpoint find_abs (a : nat) (l : list (key * (nat * lcfg))) : option lcfg :=
   match l with [] => None | (_, (b, c)) :: r => if Nat.eqb a b then Some c else find_abs a r end.
+(* RestartNumbering(numId): a numbering id is taken whatever the argument; when the instance exists, the new id is
+   bound to the same abstract definition *)
+Definition restart (s : nstate) (numid : nat) : nstate :=
+  match find_inst numid (instances s) with
+  | Some a => mkN (abstracts s) (next_abs s) (instances s ++ [(next_num s, a)]) (S (next_num s))
+  | None => mkN (abstracts s) (next_abs s) (instances s) (S (next_num s))
+  end.
+
 Definition level_def (s : nstate) (numid ilvl : nat) : option (option N * option ltext * Z) :=
   match find_inst numid (instances s) with
   | None => None
